@@ -59,6 +59,16 @@ func computePricePerUnit(fee *big.Int, gasLimit uint64) uint64 {
 	return math.MaxUint64
 }
 
+// computeExactPricePerUnit returns floor(fee / gasLimit) as a big integer. Only needed when "PricePerUnit" is saturated.
+func (wrappedTx *WrappedTransaction) computeExactPricePerUnit() *big.Int {
+	gasLimit := wrappedTx.Tx.GetGasLimit()
+	if wrappedTx.Fee == nil || gasLimit == 0 {
+		return new(big.Int).SetUint64(wrappedTx.PricePerUnit)
+	}
+
+	return new(big.Int).Div(wrappedTx.Fee, new(big.Int).SetUint64(gasLimit))
+}
+
 func (wrappedTx *WrappedTransaction) decideFeePayer() []byte {
 	asRelayed, ok := wrappedTx.Tx.(data.RelayedTransactionHandler)
 	if ok && len(asRelayed.GetRelayerAddr()) > 0 {
@@ -73,6 +83,13 @@ func (wrappedTx *WrappedTransaction) isTransactionMoreValuableForNetwork(otherTr
 	// First, compare by PPU (higher PPU is better).
 	if wrappedTx.PricePerUnit != otherTransaction.PricePerUnit {
 		return wrappedTx.PricePerUnit > otherTransaction.PricePerUnit
+	}
+	if wrappedTx.PricePerUnit == math.MaxUint64 {
+		// Both values are (possibly) saturated, thus compare the exact prices per unit.
+		comparison := wrappedTx.computeExactPricePerUnit().Cmp(otherTransaction.computeExactPricePerUnit())
+		if comparison != 0 {
+			return comparison > 0
+		}
 	}
 
 	// If PPU is the same, compare by gas limit (higher gas limit is better, promoting less "execution fragmentation").
